@@ -188,10 +188,10 @@ def check_case(pos, cell, pbc, cutoff, L=None):
             if bad.any():
                 i, j = first(bad)
                 viol.append(("missing", "dist[%d,%d] infinite but true MIC %r <= cutoff %r" % (i, j, mic[i, j], cutoff)))
-        bad = inf & np.isfinite(disp).any(-1)
+        bad = inf & (np.isfinite(disp).any(-1) | np.isfinite(np.asarray(fac, float)).any(-1))
         if bad.any():
             i, j = first(bad)
-            viol.append(("inf_inconsistent", "dist[%d,%d] infinite but displacement finite" % (i, j)))
+            viol.append(("inf_inconsistent", "dist[%d,%d] infinite but the displacement/factor entry is finite (%s / %s)" % (i, j, disp[i, j], fac[i, j])))
     outcome = "n%d inf%d nt%d" % (n, n_inf, int(nontrivial))
     return viol, nontrivial, outcome, n * (n - 1), (disp, fac, dist)
 
